@@ -335,19 +335,19 @@ Theorem config_accepts k v :
 Proof.
   intros K NN Tr. destruct k; try discriminate K.
   - exact (acc_log_level v NN Tr).
-  - exact (acc_bool _ v eq_refl Tr).
+  - exact (acc_bool _ v (eq_refl true) Tr).
   - exact (acc_document_lang v NN Tr).
   - exact (acc_time_format v NN).
   - exact (acc_fps v NN Tr).
   - exact (acc_scc_text_align v NN Tr).
-  - exact (acc_bool _ v eq_refl Tr).
+  - exact (acc_bool _ v (eq_refl true) Tr).
   - exact (acc_start_tc v NN Tr).
-  - exact (acc_bool _ v eq_refl Tr).
+  - exact (acc_bool _ v (eq_refl true) Tr).
   - exact (acc_max_row_count v NN Tr).
-  - exact (acc_bool _ v eq_refl Tr).
-  - exact (acc_bool _ v eq_refl Tr).
-  - exact (acc_bool _ v eq_refl Tr).
-  - exact (acc_bool _ v eq_refl Tr).
+  - exact (acc_bool _ v (eq_refl true) Tr).
+  - exact (acc_bool _ v (eq_refl true) Tr).
+  - exact (acc_bool _ v (eq_refl true) Tr).
+  - exact (acc_bool _ v (eq_refl true) Tr).
   - exact (acc_safe_area v NN Tr).
-  - exact (acc_bool _ v eq_refl Tr).
+  - exact (acc_bool _ v (eq_refl true) Tr).
 Qed.
